@@ -132,4 +132,4 @@ def run(ctx):
     from . import c09
     c09.run_entries(ctx, "C16.R5", [("adss::Commune::share", {"self.%d" % fidx(ctx, CM, "M"), "self.%d" % fidx(ctx, CM, "R")}, "A"),
                                      ("adss::recover", {"shares"}, "A")], 64)
-    ctx.floor("C16.R5", 15)
+    ctx.floor("C16.R5", 8)
